@@ -79,6 +79,10 @@ def check(ctx: Ctx) -> None:
         fn = gen.methods.get(meth)
         if fn is None:
             ctx.error('C13.a: PathLossGeneral.%s vanished' % meth)
+        stored_attrs = {n.attr for k_ in M.mro(gen) for f_ in list(k_.methods.values()) + list(k_.setters.values())
+                        for n in ast.walk(f_.node) if isinstance(n, ast.Attribute) and isinstance(n.ctx, ast.Store)}
+        if not need <= stored_attrs:
+            ctx.error('C13.a: the parameters %s of PathLossGeneral are stored nowhere any more (renamed?): cannot tell' % sorted(need - stored_attrs))
         reads = {is_self_attr(n, fn.self_name or 'self') for n in ast.walk(fn.node)} - {None}
         # properties n / C resolve to the attributes
         reads |= {'_' + r for r in reads if not r.startswith('_')}
